@@ -33,6 +33,8 @@ pub uninterp spec fn compat(a: TypeLayout, b: TypeLayout, f: &Flags) -> bool;
 impl TypeLayout { #[verifier::external_body] pub fn eq_complex(&self, other: &TypeLayout, f: &Flags) -> (r: bool) ensures r == compat(*self, *other, f) { unimplemented!() } }
 pub fn bool_type() -> (r: TypeLayout) ensures r == TypeLayout::Native(NativeType::Bool) { TypeLayout::Native(NativeType::Bool) }
 
+pub uninterp spec fn holds_map(t: TypeLayout) -> bool;          // TypeLayout::contains_map (its own contract: unit c02_map_key)
+impl TypeLayout { #[verifier::external_body] pub fn contains_map(&self) -> (r: bool) ensures r == holds_map(*self) { unimplemented!() } }
 pub open spec fn strip_cb(t: TypeLayout) -> TypeLayout decreases t { match t { TypeLayout::CallbackVariable(x) => strip_cb(*x), other => other } }
 pub open spec fn strip_opt(t: TypeLayout) -> Option<TypeLayout> { match t { TypeLayout::Optional(Some(x)) => Some(*x), TypeLayout::Optional(None) => None, other => Some(other) } }
 // kinds of values the interpreter's `Primitive::equals` can compare with one another: numbers, strings, bools, lists -- and nil with
@@ -44,7 +46,9 @@ pub open spec fn comparable(t: TypeLayout) -> bool decreases t {
         TypeLayout::Optional(Some(x)) => comparable(*x),
         TypeLayout::Optional(None) => true,
         TypeLayout::Native(_) => true,
-        TypeLayout::List(_) => true,
+        // a list compares element by element: two lists can be compared unless a map sits somewhere in the element type (the interpreter's comparison
+        // of two maps is the constant `false`: a list of maps would not even equal itself -- D115)
+        TypeLayout::List(_) => !holds_map(t),
         TypeLayout::Generic(_) => true,
         _ => false,
     }
